@@ -9,5 +9,5 @@ CONSTANTS
   WriteLens = {}
   WErrs = {"nil", "E1", "E2", "E3"}
   WMaxSteps = 0
-INVARIANTS RemInv RequestBounded ObtainedBounded DeliveredBounded PrefixDelivered ErrPassThrough LimitSticky OffInv ForwardedPrefix ReportsLen WErrPassThrough NoCallWhenFull
+INVARIANTS RemInv RequestBounded ObtainedBounded DeliveredBounded PrefixDelivered ErrPassThrough LimitSticky OffInv TForwardedPrefix ReportsLen WErrPassThrough NoCallWhenFull
 CHECK_DEADLOCK FALSE
